@@ -119,7 +119,7 @@ def check_size(case, rec):
 
 
 def search_l2(ctx):
-    ctx.given_shared(gs.scenario(), ctx.total(96, 1500))
+    gs.run_stratified(ctx, ctx.total(96, 1500), outcomes=["inside", "inside", "edge_small", "edge_large", "tiny", "huge"])
 
 
 def search_l3(ctx):
